@@ -329,8 +329,10 @@ class Celestial(Dynamics, metaclass=ABCMeta):
                 )
 
                 # Properly copies updated state back into full state vector for when
-                # an event occurs on a `times`
-                if current_time == solution.t[-1]:
+                # an event occurs on a `times`. The root finder resolves the event time only to
+                # a few ulps, so an event scheduled exactly on an output time may be reported an
+                # ulp later than that output time.
+                if abs(current_time - solution.t[-1]) <= 8 * spacing(solution.t[-1]):
                     states[..., -1] = current_state.copy()
 
                 events = self._dropAppliedImpulses(solution.t_events, events)
